@@ -57,6 +57,7 @@ def check(pid, tier):
 
     # ---- collect failures -------------------------------------------------------------------
     failures = []
+    inductive_ctis = []
     for f in ded.failures:
         f = dict(f)
         f['origin'] = 'deductive'
@@ -65,6 +66,12 @@ def check(pid, tier):
     claimed = set(f.get('obligation') for f in ded.failures)
     for ob in ded.obligations:
         if ob.status == 'refuted' and ob.kind not in ('cover', 'must-fail') and ob.name not in claimed:
+            if ob.inductive:
+                # a counterexample to induction (loop-invariant preservation) may be unreachable: it is not a failing
+                # input.  It is recorded; the bounded stand-in (same run) decides whether a real witness exists.
+                ded.demote(ob.function, 'counterexample to induction for %s; undecided by proof, bounded result decides' % ob.name)
+                inductive_ctis.append(ob.name)
+                continue
             was = ledger.get(ob.name)
             f = dict(clause=ob.clause, site=ob.function, wclass='obligation ' + ob.name,
                      witness=ob.model, detail='obligation refuted by %s: %s' % (ob.backend, ob.detail),
@@ -130,6 +137,9 @@ def check(pid, tier):
         '%d unknown, %d inapplicable; bounded stand-in: %d evaluations (never counted as proved).'
         % (cnt['obligations'], cnt['discharged'], cnt['refuted'], cnt['unknown'],
            cnt['inapplicable'], coverage.get('evaluations', 0)))
+    if inductive_ctis:
+        coverage['inductive_counterexamples_not_reported'] = inductive_ctis
+    checker_errors = checker_errors + list(ded.checker_errors)
     if checker_errors:
         coverage['checker_errors'] = checker_errors
     coverage['known_findings_reported'] = [l for l in lines if l.startswith('KNOWN')]
